@@ -1,7 +1,7 @@
 """C08 - HTML output is well-formed and document text cannot inject markup (E1 + output scanner)."""
 import html
 from urllib.parse import unquote
-from mc import core, spaces
+from mc import core, spaces, inlinespell, leafspell
 from models import scan_html
 
 ID = 'C08'
@@ -63,6 +63,7 @@ def jobs(tier):
     for lo in range(0, 0x110000, step):
         js.append(('helpers', lo, min(0x110000, lo + step)))
     js.append(('pairs',))
+    js += leafspell.jobs() + inlinespell.jobs()
     return js
 
 
@@ -172,6 +173,14 @@ def run_job(job):
         for key, text in spaces.role_documents([ROLE_STRINGS[job[1]]]):
             run_text(r, text)
         r.sample(dict(space='roles', string=ROLE_STRINGS[job[1]]), 1)
+    elif kind in ('leafspell', 'inlinespell'):
+        mod = leafspell if kind == 'leafspell' else inlinespell
+        for case in mod.cases_of_job(job):
+            for ctx in mod.CONTEXTS:
+                x = mod.in_context(case, ctx)
+                if x is not None:
+                    run_text(r, x[0])
+        r.sample(dict(space=kind, family=job[1]), 1)
     elif kind == 'helpers':
         core.fresh()
         for cp in range(job[1], job[2]):
